@@ -71,5 +71,28 @@ def accepts (sp : Spec) (log : List Rec) : Bool :=
   let μ := monOf sp log
   μ.ok && quiet μ
 
+/-- the acceptor's parameters for a configuration of the model -/
+def specOf (cfg : Cfg) : Spec := { timeout := cfg.timeout, routes := cfg.async && cfg.onExc }
+
+/-! ### vocabulary of the declarative readings -/
+
+/-- number of clock ticks in a stretch of trace = the time it spans -/
+def ticks (l : List Rec) : Nat := (l.filter (· == .tick)).length
+
+/-- no record about (m, s) — enter, exit or firing — occurs in the stretch -/
+def Clean (m s : Nat) (l : List Rec) : Prop := ∀ r ∈ l, r ≠ .enter m s ∧ r ≠ .exit m s ∧ r ≠ .fired m s
+
+/-- the model a record belongs to -/
+def recModel : Rec → Option Nat
+  | .tick => none
+  | .enter m _ | .exit m _ | .fired m _ | .firedEnd m _ | .raised m _ | .routed m _ => some m
+
+/-- the timer object in `state.runner[id(model)]` -/
+def slot (st : St) (s m : Nat) : Option Timer := (st.runner s m).bind (fun i => st.timers[i]?)
+
+/-- every runner slot holds a timer of that state and model -/
+def Typed (st : St) : Prop :=
+  ∀ s m i, st.runner s m = some i → ∃ t, st.timers[i]? = some t ∧ t.s = s ∧ t.m = m
+
 end C17
 end TM
